@@ -94,8 +94,10 @@ impl<'a, 'tcx> Cx<'a, 'tcx> {
                 PlaceElem::Field(f, fty) => {
                     let bty = base.ty(&self.body.local_decls, self.tcx);
                     let mut name = String::new();
+                    let mut cont = String::new();
                     match bty.ty.kind() {
                         ty::Adt(def, _) => {
+                            cont = self.tcx.def_path_str(def.did());
                             let vi = bty.variant_index.unwrap_or(rustc_abi::FIRST_VARIANT);
                             if def.is_enum() || def.is_struct() || def.is_union() {
                                 let v = def.variant(vi);
@@ -116,10 +118,11 @@ impl<'a, 'tcx> Cx<'a, 'tcx> {
                     }
                     let _ = write!(
                         s,
-                        "{{\"f\":{},\"n\":{},\"t\":{}}}",
+                        "{{\"f\":{},\"n\":{},\"t\":{},\"a\":{}}}",
                         f.as_usize(),
                         esc(&name),
-                        esc(&format!("{}", fty))
+                        esc(&format!("{}", fty)),
+                        esc(&cont)
                     );
                 }
                 PlaceElem::Index(l) => {
@@ -618,6 +621,13 @@ impl rustc_driver::Callbacks for Cb {
             for impl_ldid in impls.iter() {
                 let impl_did = impl_ldid.to_def_id();
                 let st = tcx.type_of(impl_did).instantiate_identity().skip_norm_wip();
+                let mut assoc: Vec<String> = Vec::new();
+                for item in tcx.associated_items(impl_did).in_definition_order() {
+                    if let ty::AssocKind::Type { .. } = item.kind {
+                        let t = tcx.type_of(item.def_id).instantiate_identity().skip_norm_wip();
+                        assoc.push(format!("{}:{}", esc(&item.name().to_string()), esc(&format!("{}", t))));
+                    }
+                }
                 for item in tcx.associated_items(impl_did).in_definition_order() {
                     if !matches!(item.kind, ty::AssocKind::Fn { .. }) {
                         continue;
@@ -632,11 +642,12 @@ impl rustc_driver::Callbacks for Cb {
                     first = false;
                     let _ = write!(
                         out,
-                        "{{\"trait\":{},\"trait_method\":{},\"impl_method\":{},\"self_ty\":{}}}",
+                        "{{\"trait\":{},\"trait_method\":{},\"impl_method\":{},\"self_ty\":{},\"assoc\":{{{}}}}}",
                         esc(&tcx.def_path_str(*trait_did)),
                         esc(&tm),
                         esc(&tcx.def_path_str(item.def_id)),
-                        esc(&format!("{}", st))
+                        esc(&format!("{}", st)),
+                        assoc.join(",")
                     );
                 }
             }
